@@ -7,6 +7,8 @@ self.logger.* calls removed) and compared with the templates below; a template c
   pool_close_drops     ThreadPoolServer.close closes the connections left in fd_to_conn before joining the workers
   pool_fail_discards   ThreadPoolServer._accept_method takes the socket out of self.clients when building the connection failed
   fork_parent_keeps    ForkingServer's parent keeps the accepted socket in self.clients (no such tree is known: always false)
+  pool_catches_base    ThreadPoolServer._serve_requests catches a BaseException that is not an Exception and drops that connection
+                       (otherwise it escapes _serve_clients' `except Exception` too and the worker thread ends)
   connect_instantiates_class, conn_tables_fresh, conn_close_guarded, cleanup_runs_hook
                        one service instance per connection when a class is registered / fresh per-connection tables /
                        Connection.close is guarded by _closed / _cleanup calls on_disconnect exactly once
@@ -318,8 +320,7 @@ def _poll_inactive_clients(self):
             time.sleep(0.2)
 ''')
 
-template("ThreadPoolServer", "_serve_requests", "serve_requests_prog",
-         ["QForBatch", "QPollServes", "QIfNothingAddInactiveReturn", "QEOFDropReturn", "QOtherRequeueRaise", "QBatchDoneRequeue"], '''
+_SERVE_REQ_HEAD = '''
 def _serve_requests(self, fd):
     for _ in range(self.request_batch_size):
         try:
@@ -332,8 +333,19 @@ def _serve_requests(self, fd):
         except Exception:
             self._active_connection_queue.put(fd)
             raise
+'''
+_SERVE_REQ_TAIL = '''
     self._active_connection_queue.put(fd)
-''')
+'''
+template("ThreadPoolServer", "_serve_requests", "serve_requests_prog",
+         ["QForBatch", "QPollServes", "QIfNothingAddInactiveReturn", "QEOFDropReturn", "QOtherRequeueRaise", "QBatchDoneRequeue"],
+         _SERVE_REQ_HEAD + _SERVE_REQ_TAIL, pool_catches_base=False)
+template("ThreadPoolServer", "_serve_requests", "serve_requests_prog",
+         ["QForBatch", "QPollServes", "QIfNothingAddInactiveReturn", "QEOFDropReturn", "QOtherRequeueRaise", "QBaseDropReturn", "QBatchDoneRequeue"],
+         _SERVE_REQ_HEAD + '''        except BaseException:
+            self._drop_connection(fd)
+            return
+''' + _SERVE_REQ_TAIL, pool_catches_base=True)
 
 template("ThreadPoolServer", "_serve_clients", "pool_worker_prog",
          ["XWhileActive", "XBlockingGet", "XIfFdServe", "XEmptyPass", "XExceptSleep"], '''
@@ -397,7 +409,7 @@ def translate(repo):
             items.append(Item("!%s.%s" % (cls, name), "failed", text=str(e)))
         if fn is not None:
             items.append(shape("%s.%s" % (cls, name), func_shape(fn)))
-    for k in ("pool_close_drops", "pool_fail_discards", "fork_parent_keeps"):
+    for k in ("pool_close_drops", "pool_fail_discards", "fork_parent_keeps", "pool_catches_base"):
         if k in facts:
             items.append(typed(k, "bool", coq_bool(facts[k])))
     # clients is a set created per server; the pool's tables are created per server
@@ -429,8 +441,9 @@ def translate(repo):
         and cl[1].endswith("finally:\n    self._cleanup(_anyway=True)"))))
     cu = _stmts(find_func(C_, "_cleanup"))
     items.append(typed("cleanup_runs_hook", "bool", coq_bool(
-        cu[:4] == ["if self._closed and (not _anyway):\n    return", "self._closed = True", "self._channel.close()", "self._local_root.on_disconnect(self)"]
-        and sum("on_disconnect" in s for s in cu) == 1)))
+        cu[:3] == ["if self._closed and (not _anyway):\n    return", "self._closed = True", "self._channel.close()"] and len(cu) > 3
+        and (cu[3] == "self._local_root.on_disconnect(self)" or cu[3].startswith("try:\n    self._local_root.on_disconnect(self)\nfinally:\n"))
+        and sum(s.count("on_disconnect") for s in cu) == 1)))
     sa = _stmts(find_func(C_, "serve_all"))
     items.append(typed("serve_all_closes_in_finally", "bool", coq_bool(
         len(sa) == 1 and sa[0].startswith("try:\n    while not self.closed:\n        self.serve(None)") and sa[0].endswith("finally:\n    self.close()")
